@@ -1384,11 +1384,23 @@ class Process(StateMachine, persistence.Savable, metaclass=ProcessStateMachineMe
             if self.has_terminated():
                 # terminated from outside while this step was in flight (e.g. failed by a scheduled callback)
                 pass
-            elif self._interrupt_action:
-                self._interrupt_action.run(next_state)
             else:
-                # Everything nominal so transition to the next state
-                self.transition_to(next_state)
+                action = self._interrupt_action
+                if action:
+                    action.run(next_state)
+                else:
+                    # Everything nominal so transition to the next state
+                    self.transition_to(next_state)
+
+                # a pause or kill requested while that transition was under way (by a listener, say) has been armed
+                # as a new interrupt action: the step has yielded, so carry it out now instead of discarding it below
+                while (
+                    self._interrupt_action is not None
+                    and self._interrupt_action is not action
+                    and not self.has_terminated()
+                ):
+                    action = self._interrupt_action
+                    action.run(None)
 
         finally:
             self._stepping = False
